@@ -8,7 +8,8 @@ import sys
 import time
 
 ROOT = os.path.dirname(os.path.dirname(os.path.abspath(__file__)))
-EVIDENCE_DIR = os.path.join(ROOT, "evidence")
+# seed evaluation (tools/seed_eval.py --in-worktree) points the harness at a scratch worktree and keeps its evidence out of /verif/evidence
+EVIDENCE_DIR = os.environ.get("KAFE2_VERIF_EVIDENCE_DIR") or os.path.join(ROOT, "evidence")
 REPLAY_DIR = os.path.join(ROOT, "replays")
 FINDINGS_FILE = os.path.join(ROOT, "known_findings.txt")
 
@@ -23,8 +24,9 @@ def repo_head():
 def assert_repo_import():
     import kafe2
     f = os.path.realpath(kafe2.__file__)
-    if not f.startswith("/repo/"):
-        raise RuntimeError("kafe2 is imported from %s, not from /repo" % f)
+    tree = os.path.realpath(os.environ.get("KAFE2_VERIF_TREE") or "/repo") + "/"
+    if not f.startswith(tree):
+        raise RuntimeError("kafe2 is imported from %s, not from %s" % (f, tree))
 
 
 # --------------------------------------------------------------------------------------
